@@ -36,6 +36,8 @@ def main():
     try:
         rc, o = sh(["git", "-C", wt, "apply", os.path.join(sd, "patch.diff")])
         if rc != 0:
+            rc, o = sh(["git", "-C", wt, "apply", "--3way", os.path.join(sd, "patch.diff")])
+        if rc != 0:
             print("patch does not apply:", o)
             res["error"] = "patch does not apply: " + o
             return 2
